@@ -194,10 +194,10 @@ class CHECK(Check):
             kw["control_features"] = mc.feature_arg(case["cf"], case["cf_names"], case["cf_container"], index)
         if case["bare"]:
             metrics = mc.pyfunc(case["specs"][0]["tag"])
-            sp = mc.sample_params_of(case["specs"][0])
+            sp = mc.sample_params_of(case["specs"][0], index)
         else:
             metrics = {nm: mc.pyfunc(s["tag"]) for nm, s in zip(case["names"], case["specs"])}
-            sp = {nm: mc.sample_params_of(s) for nm, s in zip(case["names"], case["specs"])}
+            sp = {nm: mc.sample_params_of(s, index) for nm, s in zip(case["names"], case["specs"])}
             if all(not v for v in sp.values()) and case["perm_seed"] % 2 == 0:
                 sp = None
         return MetricFrame(metrics=metrics, y_true=y, y_pred=pred, sensitive_features=sfa, sample_params=sp, **kw)
